@@ -183,7 +183,7 @@ RICH_EXAMPLES.append(('rich1-reversed', _reordered(RICH_EXAMPLES[0][1])))
 def defaults_spec():
     types = paramspace.valid_param_types('thorough')
     lines = ['namespace dn', '', 'import du', '', 'union Lunion', '    la', '    lb', '    lc Int32', '', 'union Lchild extends Lunion', '    ld', '',
-             'alias Alunion = Lunion', '', 'alias Aflocal = du.Funion', '', 'alias Achain = du.Afunion', '', 'struct Dhold', '    "defaults holder"']
+             'alias Alunion = Lunion', '', 'alias Aflocal = du.Funion', '', 'alias Achain = du.Afunion', '', 'alias Azlocal = du.Azunion', '', 'struct Dhold', '    "defaults holder"']
     fields = []
     i = 0
     for t in types:
@@ -197,7 +197,7 @@ def defaults_spec():
                 lines.append('    d%d %s = %s' % (i, tt, render.lit(v)))
                 fields.append(('d%d' % i, t, v, via_alias))
                 i += 1
-    for j, (tt, tag) in enumerate([('Lunion', 'la'), ('Lunion', 'lb'), ('Lchild', 'la'), ('Lchild', 'ld'), ('Alunion', 'lb'), ('du.Funion', 'fa'), ('du.Afunion', 'fa'), ('Aflocal', 'fa'), ('Achain', 'fa')]):
+    for j, (tt, tag) in enumerate([('Lunion', 'la'), ('Lunion', 'lb'), ('Lchild', 'la'), ('Lchild', 'ld'), ('Alunion', 'lb'), ('du.Funion', 'fa'), ('du.Afunion', 'fa'), ('Aflocal', 'fa'), ('Achain', 'fa'), ('du.Azunion', 'fa'), ('Azlocal', 'fa')]):
         lines.append('    u%d %s = %s' % (j, tt, tag))
         fields.append(('u%d' % j, ('tag', tt), tag, False))
     lines.append('')
@@ -206,14 +206,15 @@ def defaults_spec():
 
 lines_alias = []
 
-DU = 'namespace du\n\nunion Funion\n    fa\n    fb String\n\nalias Afunion = Funion\n'
+DU = 'namespace du\n\nimport dz\n\nunion Funion\n    fa\n    fb String\n\nalias Afunion = Funion\n\nalias Azunion = dz.Zunion\n'
+DZ = 'namespace dz\n\nunion Zunion\n    fa\n    zb Int32\n'
 
 
 def defaults_universe():
     if 'u' not in _D:
         del lines_alias[:]
         text, fields = defaults_spec()
-        specs = [('du.stone', DU), ('dn.stone', text)]
+        specs = [('du.stone', DU), ('dz.stone', DZ), ('dn.stone', text)]
         out = impl.compile_specs(specs)
         if out.kind != 'ok':
             raise rtbase.UniverseError('compile', out.brief(), specs)
@@ -251,7 +252,7 @@ def defaults_task(item):
         # expected Python value of the declared default
         if (type(t) is tuple):
             tt = t[1]
-            cls = {'Lunion': dn.Lunion, 'Lchild': dn.Lchild, 'Alunion': dn.Lunion, 'du.Funion': du.Funion, 'du.Afunion': du.Funion, 'Aflocal': du.Funion, 'Achain': du.Funion}[tt]
+            cls = {'Lunion': dn.Lunion, 'Lchild': dn.Lchild, 'Alunion': dn.Lunion, 'du.Funion': du.Funion, 'du.Afunion': du.Funion, 'Aflocal': du.Funion, 'Achain': du.Funion, 'du.Azunion': pkg.mod('dz').Zunion, 'Azlocal': pkg.mod('dz').Zunion}[tt]
             exp = getattr(cls, lit)
             same = (got == exp) and getattr(got, '_tag', None) == lit
         else:
